@@ -29,7 +29,7 @@ FLOORS = {
     'quick': {'round_trips': 200, 'fmt:yml': 40, 'fmt:json': 40, 'fmt:pkl': 40, 'site:thread': 30,
               'site:process': 8, 'value_compares': 3000, 'history_compares': 1500, 'second_saves': 100,
               'resaves_of_loaded': 100, 'with_extra_data': 40, 'cycles_on': 30, 'hostile_constants': 500,
-              'files_opened_seen': 400},
+              'files_opened_seen': 400, 'workbook_changed_on_disk_after_compile': 30},
     'thorough': {'round_trips': 5000, 'site:process': 200, 'site:thread': 800, 'cycles_on': 800,
                  'hostile_constants': 12000},
 }
@@ -136,13 +136,13 @@ def classify_text(spec, inputs_written):
     return keys
 
 
-def one_round_trip(ctx, spec, meta, fmt, site, extra, ops, pre_ops, n_hostile, replaying=False):
+def one_round_trip(ctx, spec, meta, fmt, site, extra, ops, pre_ops, n_hostile, replaying=False, source='mem'):
     from pycel import ExcelCompiler
     if not OPENED['installed']:
         sys.addaudithook(_audit)
         OPENED['installed'] = True
     case = {'spec': spec, 'meta': meta, 'fmt': fmt, 'site': site, 'extra': extra, 'ops': ops,
-            'pre_ops': pre_ops}
+            'pre_ops': pre_ops, 'source': source}
     tmp = ctx.tmpdir
     base = os.path.join(tmp, f'm{ctx.evaluations % 7}')
     for ext in ('yml', 'json', 'pkl'):
@@ -169,10 +169,22 @@ def one_round_trip(ctx, spec, meta, fmt, site, extra, ops, pre_ops, n_hostile, r
             key = 'text-constant/written-text-starting-with-equals-becomes-a-formula'
         ctx.violation(f'{key}/{fmt}', msg + f' [format={fmt}, load site={site}, cycles={cycles}]', case)
 
+    xlsx = os.path.join(tmp, 'source.xlsx')
     try:
-        O = wb.compile_mem(spec)
+        if source == 'xlsx':
+            # a model compiled from a workbook file: the file is changed on disk after compiling, the
+            # saved model must still carry the hash of the workbook it was compiled from
+            O = wb.compile_xlsx(spec, xlsx, None)
+            ctx.count('source:xlsx')
+        else:
+            O = wb.compile_mem(spec)
         for a in cells:
             wb.outcome(O.evaluate, a)
+        if source == 'xlsx':
+            changed = wb.with_inputs(spec, {})
+            changed['sheets'][0][1]['J30'] = 'changed after compiling'
+            wb.write_xlsx(changed, xlsx, None)
+            ctx.count('workbook_changed_on_disk_after_compile')
         for op in pre_ops:          # writes before the save (hostile text through set_value)
             if op[1] in O.cell_map:
                 O.set_value(op[1], op[2])
@@ -303,6 +315,8 @@ def one_round_trip(ctx, spec, meta, fmt, site, extra, ops, pre_ops, n_hostile, r
 
     # ---- saving the loaded model reproduces the content
     try:
+        if source == 'xlsx' and os.path.exists(xlsx):
+            os.unlink(xlsx)         # the loaded model is saved where the workbook is not available
         rbase = os.path.join(tmp, 'resave')
         L.to_file(rbase, file_types=('json' if fmt == 'json' else 'yml',))
         a_, b_ = parse_text(text), parse_text(f'{rbase}.{"json" if fmt == "json" else "yml"}')
@@ -435,9 +449,9 @@ def run(ctx):
             if inputs:
                 pre_ops.append(['set', rng.choice(inputs), rng.choice(HOSTILE[-3:] + HOSTILE[:20])])
         one_round_trip(ctx, spec, meta, fmt, site, extra, gen_ops(rng, spec, meta, rng.randint(4, 10)),
-                       pre_ops, n_h + len(pre_ops))
+                       pre_ops, n_h + len(pre_ops), source='xlsx' if i % 4 == 1 else 'mem')
 
 
 def replay(ctx, case):
     one_round_trip(ctx, case['spec'], case['meta'], case['fmt'], case['site'], case['extra'], case['ops'],
-                   case['pre_ops'], 1, replaying=True)
+                   case['pre_ops'], 1, replaying=True, source=case.get('source', 'mem'))
